@@ -258,6 +258,7 @@ type seg struct {
 	perPkt  bool // one delivery per packet (no gaps)
 	closing bool // the server closes right after its last byte, and the Read that returns that byte also returns EOF
 	inner   time.Duration // > 0: the pieces (split at cuts) are sent one by one with this idle time before each
+	far     bool          // the caller's context carries a deadline one hour away (it never fires)
 }
 
 func body03(k c03case) Body { return body03seg(k, seg{perPkt: true}, "C03") }
@@ -423,7 +424,13 @@ func body03seg(k c03case, sg seg, prop string) Body {
 		}
 		c.C.OneByte = sg.oneByte
 		c.RunPeer("peer", c.HsLen, steps, nil)
-		derr := c.Cl.Do(context.Background(), q)
+		doCtx := context.Background()
+		if sg.far {
+			var cancelFar context.CancelFunc
+			doCtx, cancelFar = context.WithDeadline(doCtx, time.Now().Add(time.Hour))
+			defer cancelFar()
+		}
+		derr := c.Cl.Do(doCtx, q)
 		vsched.Quiet(func() { _ = c.Cl.Close() })
 
 		wantTrace, wantRes := k.expected()
